@@ -21,21 +21,21 @@ def line (e : Ev) (ln : String) : Ev × String :=
   match words ln with
   | ["reset"] => (Ev.init, "ok")
   | ["reg", t, n, c] => match t.toNat?, c.toNat? with
-    | some t, some c => fin (step ErgoVerif.Gen.Event.terminationUpdatesCounter e (.register t (n = "1") c))
+    | some t, some c => fin (step ErgoVerif.Gen.Event.terminationUpdatesCounter ErgoVerif.Gen.Event.publishDedupes e (.register t (n = "1") c))
     | _, _ => (e, "bad-op")
   | ["pub", t, m] => match t.toNat?, m.toNat? with
-    | some t, some m => fin (step ErgoVerif.Gen.Event.terminationUpdatesCounter e (.publish t m))
+    | some t, some m => fin (step ErgoVerif.Gen.Event.terminationUpdatesCounter ErgoVerif.Gen.Event.publishDedupes e (.publish t m))
     | _, _ => (e, "bad-op")
   | ["sub", c, k] => match c.toNat? with
-    | some c => fin (step ErgoVerif.Gen.Event.terminationUpdatesCounter e (.sub c (k = "m")))
+    | some c => fin (step ErgoVerif.Gen.Event.terminationUpdatesCounter ErgoVerif.Gen.Event.publishDedupes e (.sub c (k = "m")))
     | none => (e, "bad-op")
   | ["unsub", c, k] => match c.toNat? with
-    | some c => fin (step ErgoVerif.Gen.Event.terminationUpdatesCounter e (.unsub c (k = "m")))
+    | some c => fin (step ErgoVerif.Gen.Event.terminationUpdatesCounter ErgoVerif.Gen.Event.publishDedupes e (.unsub c (k = "m")))
     | none => (e, "bad-op")
   | ["die", c] => match c.toNat? with
-    | some c => fin (step ErgoVerif.Gen.Event.terminationUpdatesCounter e (.consumerDies c))
+    | some c => fin (step ErgoVerif.Gen.Event.terminationUpdatesCounter ErgoVerif.Gen.Event.publishDedupes e (.consumerDies c))
     | none => (e, "bad-op")
-  | ["unreg"] => fin (step ErgoVerif.Gen.Event.terminationUpdatesCounter e .unregister)
+  | ["unreg"] => fin (step ErgoVerif.Gen.Event.terminationUpdatesCounter ErgoVerif.Gen.Event.publishDedupes e .unregister)
   | _ => (e, "bad-op")
 
 def main (h : IO.FS.Stream) : IO Unit := loopState h line Ev.init
